@@ -894,6 +894,35 @@ func (d *Doc) NodeStr(i int) []StrCase {
 	return out
 }
 
+// NormReplacement: the reference rewriting of an XPath replacement string for
+// Go's regexp: $N (the longest digit run naming an existing group) becomes ${N}.
+func NormReplacement(r string, groups int) string {
+	out := ""
+	i := 0
+	for i < len(r) {
+		if r[i] == '$' && i+1 < len(r) && r[i+1] >= '0' && r[i+1] <= '9' {
+			best, bestEnd, n := -1, -1, 0
+			for j := i + 1; j < len(r) && r[j] >= '0' && r[j] <= '9'; j++ {
+				n = n*10 + int(r[j]-'0')
+				if n >= 1 && n <= groups {
+					best, bestEnd = n, j+1
+				}
+				if n > groups {
+					break
+				}
+			}
+			if best >= 0 {
+				out += "${" + strconv.Itoa(best) + "}"
+				i = bestEnd
+				continue
+			}
+		}
+		out += r[i : i+1]
+		i++
+	}
+	return out
+}
+
 var numberRe = regexp.MustCompile(`^[ \t\r\n]*-?([0-9]+(\.[0-9]*)?|\.[0-9]+)[ \t\r\n]*$`)
 
 // XPathNumber converts a concrete string by the XPath 1.0 number() rules.
@@ -1060,6 +1089,22 @@ func (d *Doc) String(v Val) []StrCase {
 		out = append(out, StrCase{Cond: none, S: ""})
 		return out
 	}
+	// a concrete number: the shortest decimal text that reads back as the same double,
+	// never in exponent notation
+	if v.F.IsConst() {
+		x := math.Float64frombits(v.F.U)
+		switch {
+		case x != x:
+			return []StrCase{{Cond: c.T, S: "NaN"}}
+		case math.IsInf(x, 1):
+			return []StrCase{{Cond: c.T, S: "Infinity"}}
+		case math.IsInf(x, -1):
+			return []StrCase{{Cond: c.T, S: "-Infinity"}}
+		case x == 0:
+			return []StrCase{{Cond: c.T, S: "0"}}
+		}
+		return []StrCase{{Cond: c.T, S: strconv.FormatFloat(x, 'f', -1, 64)}}
+	}
 	// numbers: NaN, and integer values below 10^6 in magnitude (plain decimal, "0" for both zeros)
 	f := v.F
 	isNaN := c.FpIsNaN(f)
@@ -1219,6 +1264,56 @@ func (d *Doc) evalCall(e *Call, cx Ctx) Val {
 		return Val{K: KStr, S: cur}
 	}
 	switch e.Name {
+	case "matches", "replace":
+		// only on concrete operands (pool values, literals): Go's regexp is the
+		// definition; an invalid pattern is outside the fragment
+		conc := func(cs []StrCase) {
+			for _, sc := range cs {
+				for _, b := range sc.B {
+					if b != nil {
+						unsupported("%s on symbolic strings", e.Name)
+					}
+				}
+			}
+		}
+		subj, pat := d.String(arg(0)), d.String(arg(1))
+		conc(subj)
+		conc(pat)
+		var rep []StrCase
+		if e.Name == "replace" {
+			rep = d.String(arg(2))
+			conc(rep)
+		} else {
+			rep = []StrCase{{Cond: c.T}}
+		}
+		var disj []*sym.Term
+		var out []StrCase
+		for _, x := range subj {
+			for _, p := range pat {
+				g := c.And(x.Cond, p.Cond)
+				if g.IsFalse() {
+					continue
+				}
+				re, err := regexp.Compile(p.S)
+				if err != nil {
+					d.OutsideClaim = c.Or(d.OutsideClaim, g)
+					continue
+				}
+				if e.Name == "matches" {
+					if re.MatchString(x.S) {
+						disj = append(disj, g)
+					}
+					continue
+				}
+				for _, r := range rep {
+					out = append(out, StrCase{Cond: c.And(g, r.Cond), S: re.ReplaceAllString(x.S, NormReplacement(r.S, re.NumSubexp()))})
+				}
+			}
+		}
+		if e.Name == "matches" {
+			return Val{K: KBool, B: c.Or(disj...)}
+		}
+		return Val{K: KStr, S: out}
 	case "substring-before", "substring-after":
 		return Val{K: KStr, S: d.substringIndex(e.Name == "substring-after", d.String(arg(0)), d.String(arg(1)))}
 	case "substring":
